@@ -326,7 +326,7 @@ impl<'xml> Deserializer<'xml> {
                     let s = String::from_utf8(buf).map_err(|_| DeError::InvalidContent)?;
                     x = BytesText::from_escaped(s);
                 }
-                f(x)
+                f(normalize_line_ends(x)?)
             }
             DeEvent::Eof => {
                 self.consume_peeked();
@@ -369,6 +369,16 @@ impl fmt::Debug for Deserializer<'_> {
     }
 }
 
+/// XML 1.0, 2.11: a literal CR LF or CR in a document stands for LF
+/// (a carriage return that is data arrives as the character reference `&#xD;`).
+fn normalize_line_ends(text: BytesText<'_>) -> DeResult<BytesText<'_>> {
+    if !text.contains(&b'\r') {
+        return Ok(text);
+    }
+    let raw = String::from_utf8(text.into_inner().into_owned()).map_err(|_| DeError::InvalidContent)?;
+    Ok(BytesText::from_escaped(raw.replace("\r\n", "\n").replace('\r', "\n")))
+}
+
 /// Character data next to elements (before the root, between child elements, after the root)
 /// carries no value: only white space may appear there.
 fn skip_white_space(text: &[u8]) -> DeResult {
@@ -409,7 +419,12 @@ fn check_attributes(start: &BytesStart<'_>) -> DeResult {
 fn is_xml_name(name: &[u8]) -> bool {
     let is_start = |b: u8| b.is_ascii_alphabetic() || b == b'_' || !b.is_ascii();
     let is_nc_name = |part: &[u8]| match part.split_first() {
-        Some((&first, rest)) => is_start(first) && rest.iter().all(|&b| is_start(b) || b.is_ascii_digit() || matches!(b, b'-' | b'.')),
+        Some((&first, rest)) => {
+            is_start(first)
+                && rest
+                    .iter()
+                    .all(|&b| is_start(b) || b.is_ascii_digit() || matches!(b, b'-' | b'.'))
+        }
         None => false,
     };
     let mut parts = name.splitn(2, |&b| b == b':');
